@@ -465,6 +465,54 @@ Section Lint.
 End Lint.
 
 (* ------------------------------------------------------------------------------------------------ *)
+(* specification-side notions used in the statements of Props/C17.v *)
+
+(* well-formed characters: what [decode] produces.  An ASCII byte occurs in the source bytes of a
+   character only as that whole character (UTF-8 is self-synchronising). *)
+Definition wfc (c : ch) : Prop :=
+  raw c <> [] /\
+  (forall b, In b (raw c) -> b < 128 -> raw c = [b] /\ cp c = b) /\
+  (cp c < 128 -> raw c = [cp c]).
+Definition wft (t : list ch) : Prop := forall c, In c t -> wfc c.
+
+Fixpoint lastc {A} (l : list A) : option A :=
+  match l with
+  | [] => None
+  | [c] => Some c
+  | _ :: t => lastc t
+  end.
+(* the defect L001 names: the line ends in a space or a tab *)
+Definition ends_blank (l : list ch) : Prop := exists c, lastc l = Some c /\ is_blank c = true.
+
+Section Spec.
+  Variable is_space : N -> bool.
+  Variable upper_ascii : N -> option N.
+
+  (* whitespace: a Unicode space, the blanks of the cut set " \t", or the newline *)
+  Definition wsc (c : ch) : bool := spacec is_space c || is_blank c || is_nl c.
+  (* the "ink" of a text: the code points of its non-whitespace characters *)
+  Definition ink (t : list ch) : list N := map cp (filter (fun c => negb (wsc c)) t).
+  (* case folding: a rune with an ASCII upper-case image is identified with that image *)
+  Definition fold (c : ch) : N := match upper_ascii (cp c) with Some u => u | None => cp c end.
+
+  (* the reading of a text as code: separators (one per run of whitespace, none at the two ends) and the
+     case-folded non-blank characters.  Two texts with the same reading differ only in the amount of
+     whitespace between the same character runs and in letter case: nothing is added, dropped or merged. *)
+  Inductive vtok := VW | VC (n : N).
+  Definition scons (x : vtok) (l : list vtok) : list vtok :=
+    match x, l with
+    | VW, [] => []
+    | VW, VW :: _ => l
+    | _, _ => x :: l
+    end.
+  Fixpoint strip_lead (l : list vtok) : list vtok := match l with VW :: t => strip_lead t | _ => l end.
+  Definition vt (c : ch) : vtok := if wsc c then VW else VC (fold c).
+  (* R l Z: the reading of l followed by a text whose reading is Z *)
+  Definition R (l : list ch) (Z : list vtok) : list vtok := fold_right (fun c z => scons (vt c) z) Z l.
+  Definition cview (t : list ch) : list vtok := strip_lead (R t []).
+End Spec.
+
+(* ------------------------------------------------------------------------------------------------ *)
 (* table lookups used to instantiate the parameters *)
 
 (* the range tables are emitted in ascending order: stop at the first range that starts above x *)
